@@ -8,6 +8,7 @@ package tl
 import (
 	"context"
 	"fmt"
+	"os"
 	"runtime"
 	"sort"
 	"strings"
@@ -32,8 +33,10 @@ type SiteTable struct {
 	mu          sync.Mutex
 	recs        []*siteRec
 	byLoc       map[siteLoc]*siteRec
-	workerEntry string
-	entries     map[string]bool // lane entry functions seen
+	workerChain []string // tasklane frames, outside in, of the goroutine under which a gate task's Start() ran
+	common      int      // number of outermost frames every lane goroutine shares with the worker (common wrappers)
+	workerEntry string   // the outermost DISTINGUISHING frame of the workers
+	entries     map[string]bool
 	pushFns     map[string]bool // API functions seen under harness frames
 	seq         int
 	frozen      bool
@@ -43,14 +46,16 @@ type SiteTable struct {
 
 const stackDepth = 24
 
+// siteLoc: a call site = (function that makes the call, line); api: made on behalf of an API call of the harness.
 type siteLoc struct {
-	entry string
-	line  int
-	api   bool
+	fn   string
+	line int
+	api  bool
 }
 
 type siteRec struct {
 	loc   siteLoc
+	chain []string // lane call: tasklane frames of the goroutine, outside in; api call: the API function
 	first int
 	hits  int
 	kind  byte
@@ -64,34 +69,59 @@ func NewSiteTable() *SiteTable {
 const lanePkg = "glb/tasklane."
 const harnessPkg = "verifharness/"
 
-// locate walks the stack of a context call: immediate caller's line, and whose call it is.
-func locate(pcs []uintptr) (loc siteLoc, ok bool) {
+// testWrapper (self-test, TL_TEST_WRAPPER=1): pretend that every lane goroutine was started through one common
+// wrapper, as in `tl.spawn(func(){ runWorker(tl,i) })` or `wg.Go(...)`: the outermost frame then says nothing.
+var testWrapper = os.Getenv("TL_TEST_WRAPPER") != ""
+
+func outsideIn(inner []string) []string {
+	out := make([]string, 0, len(inner)+1)
+	if testWrapper {
+		out = append(out, "github.com/whoisnian/glb/tasklane.(*TaskLane).commonWrapper.func1")
+	}
+	for i := len(inner) - 1; i >= 0; i-- {
+		out = append(out, inner[i])
+	}
+	return out
+}
+
+// locate walks the stack of a context call: the immediate caller and its line, and whose call it is - an API
+// function called by the harness (chain = that function), or a lane goroutine (chain = its tasklane frames).
+func locate(pcs []uintptr) (loc siteLoc, chain []string, ok bool) {
 	frames := runtime.CallersFrames(pcs)
-	line, prev := -1, ""
-	outer := ""
+	var lane []string
+	first := true
 	for {
 		fr, more := frames.Next()
-		if line < 0 {
-			line = fr.Line
+		if first {
+			loc.fn, loc.line = fr.Function, fr.Line
+			first = false
 		}
 		if strings.Contains(fr.Function, harnessPkg) {
-			if prev == "" {
-				return loc, false // the harness itself asked
+			if len(lane) == 0 {
+				return loc, nil, false // the harness itself asked
 			}
-			return siteLoc{entry: prev, line: line, api: true}, true
+			loc.api = true
+			return loc, []string{lane[len(lane)-1]}, true
 		}
 		if strings.Contains(fr.Function, lanePkg) {
-			outer = fr.Function
-			prev = fr.Function
+			lane = append(lane, fr.Function)
 		}
 		if !more {
 			break
 		}
 	}
-	if outer == "" {
-		return loc, false
+	if len(lane) == 0 {
+		return loc, nil, false
 	}
-	return siteLoc{entry: outer, line: line}, true
+	return loc, outsideIn(lane), true
+}
+
+func lcp(a, b []string) int {
+	n := 0
+	for n < len(a) && n < len(b) && a[n] == b[n] {
+		n++
+	}
+	return n
 }
 
 // key returns the label of the call site described by pcs ("X?" = not a call of the code under test).
@@ -106,7 +136,7 @@ func (st *SiteTable) key(pcs [stackDepth]uintptr, n int, live bool) string {
 			return k
 		}
 	}
-	loc, ok := locate(pcs[:n])
+	loc, chain, ok := locate(pcs[:n])
 	if !ok {
 		if st.frozen {
 			st.cache[pcs] = "X?"
@@ -122,7 +152,7 @@ func (st *SiteTable) key(pcs [stackDepth]uintptr, n int, live bool) string {
 		return "C?" // calibrating: nobody parks, labels do not exist yet
 	}
 	if st.frozen {
-		k := string([]byte{st.kindOf(loc), '?'})
+		k := string([]byte{st.kindOf(loc, chain), '?'})
 		if live {
 			st.drift++
 		}
@@ -130,30 +160,31 @@ func (st *SiteTable) key(pcs [stackDepth]uintptr, n int, live bool) string {
 		return k
 	}
 	if loc.api {
-		st.pushFns[loc.entry] = true
-	} else {
-		st.entries[loc.entry] = true
+		st.pushFns[chain[0]] = true
 	}
 	if live {
 		st.seq++
-		rec := &siteRec{loc: loc, first: st.seq, hits: 1}
+		rec := &siteRec{loc: loc, chain: chain, first: st.seq, hits: 1}
 		st.recs = append(st.recs, rec)
 		st.byLoc[loc] = rec
 	}
 	return "C?"
 }
 
-func (st *SiteTable) kindOf(loc siteLoc) byte {
+// kindOf: API call, worker or queue. A lane goroutine is a worker iff it shares with the worker's chain more
+// than the frames that ALL lane goroutines share (the common wrappers): roles are told apart by the outermost
+// DISTINGUISHING frame, whatever `go` statement, closure or helper started the goroutine.
+func (st *SiteTable) kindOf(loc siteLoc, chain []string) byte {
 	switch {
 	case loc.api:
 		return 'P'
-	case loc.entry == st.workerEntry:
+	case lcp(chain, st.workerChain) > st.common:
 		return 'W'
 	}
 	return 'Q'
 }
 
-// NoteWorker records the entry function of the goroutine that is running a task's Start() (calibration only).
+// NoteWorker records the frames of the goroutine that is running a task's Start() (calibration only).
 func (st *SiteTable) NoteWorker() {
 	st.mu.Lock()
 	frozen := st.frozen
@@ -164,19 +195,19 @@ func (st *SiteTable) NoteWorker() {
 	var pcs [64]uintptr
 	n := runtime.Callers(2, pcs[:])
 	frames := runtime.CallersFrames(pcs[:n])
-	outer := ""
+	var lane []string
 	for {
 		fr, more := frames.Next()
 		if strings.Contains(fr.Function, lanePkg) {
-			outer = fr.Function
+			lane = append(lane, fr.Function)
 		}
 		if !more {
 			break
 		}
 	}
-	if outer != "" {
+	if len(lane) > 0 {
 		st.mu.Lock()
-		st.workerEntry = outer
+		st.workerChain = outsideIn(lane)
 		st.mu.Unlock()
 	}
 }
@@ -187,11 +218,29 @@ func (st *SiteTable) Freeze() {
 	defer st.mu.Unlock()
 	st.frozen = true
 	sort.Slice(st.recs, func(i, j int) bool { return st.recs[i].first < st.recs[j].first })
+	// the frames every lane goroutine shares with the worker are common wrappers, not roles
+	st.common = -1
+	for _, r := range st.recs {
+		if !r.loc.api {
+			if n := lcp(r.chain, st.workerChain); st.common < 0 || n < st.common {
+				st.common = n
+			}
+		}
+	}
+	if st.common < 0 {
+		st.common = 0
+	}
+	if st.common < len(st.workerChain) {
+		st.workerEntry = st.workerChain[st.common]
+	}
 	ord := map[byte]int{}
 	for _, r := range st.recs {
-		r.kind = st.kindOf(r.loc)
+		r.kind = st.kindOf(r.loc, r.chain)
 		r.label = string([]byte{r.kind, byte('0' + ord[r.kind])})
 		ord[r.kind]++
+		if !r.loc.api && st.common < len(r.chain) {
+			st.entries[r.chain[st.common]] = true
+		}
 	}
 }
 
@@ -247,7 +296,7 @@ func (st *SiteTable) Describe() map[string]any {
 	}
 	var sites []string
 	for _, r := range st.recs {
-		sites = append(sites, fmt.Sprintf("%s=%s#%d(hits %d)", r.label, short(r.loc.entry), r.first, r.hits))
+		sites = append(sites, fmt.Sprintf("%s=%s#%d(hits %d)", r.label, short(r.loc.fn), r.first, r.hits))
 	}
 	var ent, api []string
 	for e := range st.entries {
@@ -258,7 +307,7 @@ func (st *SiteTable) Describe() map[string]any {
 	}
 	sort.Strings(ent)
 	sort.Strings(api)
-	return map[string]any{"worker_entry": short(st.workerEntry), "lane_entries": ent, "api_functions_calling_the_context": api, "sites_in_first_reach_order": sites, "calls_from_unknown_sites": st.drift}
+	return map[string]any{"worker_entry": short(st.workerEntry), "common_wrapper_frames": st.common, "lane_entries": ent, "api_functions_calling_the_context": api, "sites_in_first_reach_order": sites, "calls_from_unknown_sites": st.drift}
 }
 
 // Counts returns the number of live call sites per kind (Q, W, P).
